@@ -294,6 +294,13 @@ def prepare(tier, seed):
             prep['t12'] = {'cases': len(res), 'tokens_compared': ntok, 'streams': streams, 'verdicts': verdicts,
                            'regions': regions, 'diffs': diffs[:200], 'ndiffs': len(diffs), 'harmless_differences_noted': notes,
                            'distinct_expanded': len(nontrivial), 'samples': samples}
+        prep['names'] = None
+        if prep['lean_build_ok'] and prep['smx_build_ok']:
+            try:
+                prep['names'] = t12.compare_names(WORK)
+            except Exception:
+                import traceback
+                prep['errors'].append('names tie failed: ' + traceback.format_exc()[-1500:])
         prep['t3'] = None
         # escalation: definitions whose expansion differs from the model's are handed to the runtime
         # harness, so that a broken token-level tie comes with a concrete failing input when there is one
@@ -320,10 +327,24 @@ def prepare(tier, seed):
             suspects = suspects[:(12 if tier == 'quick' else 40)]
             prep['t12']['suspects'] = len(suspects)
             prep['t12']['ill_suspects'] = len(ill_suspects)
+        # identifiers on which to_snake_case / to_pascal_case differ from the model: machines using them
+        name_suspects = []
+        for nd in ((prep.get('names') or {}).get('diffs') or [])[:8]:
+            w = nd['impl'].split('\t')[0].replace('#NAME ', '').strip()
+            if not w or not (w[0].isalpha() or w[0] == '_'):
+                continue
+            ev, st = ('go', w) if w[0].isupper() else (w, 'Busy')
+            if ev != ev.lower() or ev.startswith('_') or ev.endswith('_') or '__' in ev or st in ('Idle', 'D', 'Ctx', 'Pay'):
+                continue
+            name_suspects.append((False, [('name', 'Machine'), ('dynamic', True), ('initial', 'Idle'),
+                                          ('states', [('leaf', 'Idle', None), ('leaf', st, ['D'])]),
+                                          ('events', [(ev, [('guards', ['g0'], True),
+                                                            ('transition', [('from', ['Idle'], False), ('to', st)])])], True)],
+                                  'name:' + w))
         if prep['lean_build_ok']:
             try:
                 import t3
-                prep['t3'] = t3.run(tier, seed, WORK, REPO, suspects=suspects)
+                prep['t3'] = t3.run(tier, seed, WORK, REPO, suspects=suspects, strict_suspects=name_suspects)
             except Exception as ex:   # harness failure: reported, never silently passed
                 import traceback
                 prep['errors'].append('T3 harness failed: ' + traceback.format_exc()[-2000:])
@@ -434,6 +455,16 @@ def run_check(pid, tier):
                                 'model': d['model'], 'impl': d['impl'], 'dsl': d['text'], 'prefix': d['prefix'],
                                 'other_mismatches_in_consumed_regions': len(rel) - 1,
                                 'replay': f'./check {pid} --replay <this file>'}, False))
+
+    # (2b) the identifier conversions (utils.rs) against the model's, consumed by the properties about names
+    nm = prep.get('names')
+    if pid in ('C12', 'C14', 'C18') and prep.get('smx_build_ok') and prep.get('lean_build_ok'):
+        if nm is None:
+            violations.append(({'property': pid, 'broken': 'tie', 'tie': 'names', 'detail': prep['errors']}, False))
+        elif nm['ndiffs']:
+            violations.append(({'property': pid, 'broken': 'tie', 'tie': 'T6 names (to_snake_case / to_pascal_case)',
+                                'impl': nm['diffs'][0]['impl'], 'model': nm['diffs'][0]['model'],
+                                'other_disagreements': nm['ndiffs'] - 1}, False))
 
     # (3) runtime tie (impl vs model) in this property's families, and the property's own
     #     oracle on the implementation's observations (impl vs oracle), reported separately
@@ -561,6 +592,8 @@ def run_check(pid, tier):
             'mismatches_in_consumed_regions': len(rel),
             'harmless_differences_noted': (tie or {}).get('harmless_differences_noted', {}),
             'suspect_definitions_escalated_to_runtime': (tie or {}).get('suspects', 0),
+            'identifiers_compared_T6': (prep.get('names') or {}).get('names', 0),
+            'identifier_conversion_mismatches': (prep.get('names') or {}).get('ndiffs', 0),
         },
         'runtime': ({
             'machines_compiled': t3r['machines'], 'scenarios': t3r['scenarios'], 'operations': t3r['ops'],
